@@ -59,15 +59,24 @@ def mc_cfg(ctx, name, comp, family, depth, mode, compress, devs, emit=True):
 
 def t_cfg(ctx, kd):
     cfg = ctx.path("t_storage.cfg")
+    if os.path.exists(cfg):     # written once (plan items are judged concurrently)
+        return cfg
     lib.write_cfg(cfg, {"KnownDeviations": lib.tla_set(kd), "Threshold": THRESHOLD}, "TInit", "TNext", invariants=["Done"], view="View")
     return cfg
 
 
-def judge_trace(ctx, trace, source, kd, totals):
+def judge_only(ctx, trace, source, kd):
+    """run the monitor (may be called from a worker thread: touches no shared state but the stage log)"""
     v = lib.judge(ctx, MODULE_T, t_cfg(ctx, kd), trace, max_events=40000)
     ndev = {fid: v.get("dev_" + fid, 0) for fid in ALL_DEVS if v.get("dev_" + fid, 0)}
     ctx.stage("judge", source=source, events=v["events"], violations=v.get("nviol", 0), deviations=ndev,
               exact_reads=v.get("exact_reads", 0), ok_writes=v.get("ok_writes", 0), wall_s=v["wall_s"], chunks=v["chunks"])
+    return v
+
+
+def account(ctx, v, trace, source, totals):
+    """main thread: totals, known-finding counts, VIOLATION lines"""
+    ndev = {fid: v.get("dev_" + fid, 0) for fid in ALL_DEVS if v.get("dev_" + fid, 0)}
     totals["exact_reads"] += v.get("exact_reads", 0)
     totals["ok_writes"] += v.get("ok_writes", 0)
     totals["events"] += v["events"]
@@ -81,13 +90,18 @@ def judge_trace(ctx, trace, source, kd, totals):
     return v
 
 
-def mc_and_run(ctx, comp, family, depth, mode, compress, kd, totals):
-    tag = f"{comp}_{family}_{mode}_{int(compress)}"
+def judge_trace(ctx, trace, source, kd, totals):
+    return account(ctx, judge_only(ctx, trace, source, kd), trace, source, totals)
+
+
+def plan_item(ctx, item, kd):
+    """TLC (model check + enumerate programs) -> driver -> monitor for one plan entry.  Runs in a worker thread;
+    everything that touches ctx.cov / prints verdicts is done by the caller from the returned record."""
+    comp, family, depth, mode, compress = item
+    tag = f"{comp}_{family}_{depth}_{mode}_{int(compress)}"
     cfg = mc_cfg(ctx, f"mc_{tag}.cfg", comp, family, depth, mode, compress, [])
     progs = ctx.path(f"prog_{tag}.ndjson")
     r = lib.tlc(ctx, MODULE_MC, cfg, tagged_out={"PROGRAM": progs}, timeout=1500)
-    ctx.cov["states"] += r["distinct"]
-    ctx.cov["transitions"] += r["generated"]
     n = r["counts"]["PROGRAM"]
     ctx.stage("mc", comp=comp, family=family, depth=depth, mode=mode, compress=compress, distinct_states=r["distinct"],
               programs=n, wall_s=r["wall_s"])
@@ -96,8 +110,12 @@ def mc_and_run(ctx, comp, family, depth, mode, compress, kd, totals):
     ctx.stage("run", comp=comp, family=family, programs=d.get("programs"), events=d.get("events"), hangs=d.get("hangs"), wall_s=d["wall_s"])
     if d.get("programs") != n:
         raise lib.ToolError(f"driver executed {d.get('programs')} of {n} programs")
-    count_ops(ctx, d)
-    return progs, trace, n, count_nontrivial(progs)
+    dn = count_nontrivial(progs)
+    os.remove(progs)
+    source = f"MC_Storage comp={comp} family={family} depth={depth} mode={mode} compress={compress}"
+    v = judge_only(ctx, trace, source, kd)
+    return {"item": item, "states": r["distinct"], "transitions": r["generated"], "n": n, "dn": dn, "info": d,
+            "trace": trace, "source": source, "verdict": v}
 
 
 def count_nontrivial(path):
@@ -153,17 +171,17 @@ def count_ops(ctx, info):
 def model_refutations(ctx):
     """With one deviation switched on, TLC must refute Durable on the code-shaped model (the finding's witness);
     this also shows that Durable is not vacuous."""
-    res = {}
+    res, st, tr = {}, 0, 0
     for fid, comp, family in (("F04a", "dyn", "sizes"), ("F04b", "inst", "classes"), ("F04c", "inst", "sizes")):
         cfg = mc_cfg(ctx, f"mc_refute_{fid}.cfg", comp, family, 4, "none", False, [fid], emit=False)
         r = lib.tlc(ctx, MODULE_MC, cfg, timeout=600, expect_violation=True, workers=2)
-        ctx.cov["states"] += r["distinct"]
-        ctx.cov["transitions"] += r["generated"]
+        st += r["distinct"]
+        tr += r["generated"]
         res[fid] = "InvDurable" in r["invariant_violated"]
         if not res[fid]:
             raise lib.ToolError(f"model with deviation {fid} switched on does not refute Durable: {r['invariant_violated']}")
     ctx.stage("model_refutes_durable_with_deviation", **res)
-    ctx.cov["model_refutes_durable_with_deviation"] = res
+    return res, st, tr
 
 
 def selftest(ctx, trace, kd):
@@ -289,27 +307,40 @@ def run(ctx):
                 ("dyn", "fill", 4, "none", False), ("inst", "fill", 5, "none", True),
                 ("dyn", "par", 4, "none", False), ("inst", "par", 5, "none", True)]
         nrand, rlen = 1200, 150
-    model_refutations(ctx)
     totals = {"exact_reads": 0, "ok_writes": 0, "events": 0}
     total_programs = 0
     distinct = 0
     did_selftest = False
     sampled = set()
-    for comp, family, depth, mode, compress in plan:
-        progs, trace, n, dn = mc_and_run(ctx, comp, family, depth, mode, compress, kd, totals)
-        total_programs += n
-        distinct += dn
+    # plan entries are independent pipelines (TLC -> driver -> monitor); a few run side by side so that the many
+    # short JVM runs overlap.  Verdicts are collected and reported here, in plan order.
+    from concurrent.futures import ThreadPoolExecutor
+    t_cfg(ctx, kd)
+    with ThreadPoolExecutor(max_workers=max(1, min(4, lib.NCPU // 4))) as ex:
+        fut_ref = ex.submit(model_refutations, ctx)
+        results = list(ex.map(lambda it: plan_item(ctx, it, kd), plan))
+        ref, st, tr = fut_ref.result()
+    ctx.cov["model_refutes_durable_with_deviation"] = ref
+    ctx.cov["states"] += st
+    ctx.cov["transitions"] += tr
+    for res in results:
+        comp, family = res["item"][0], res["item"][1]
+        trace = res["trace"]
+        ctx.cov["states"] += res["states"]
+        ctx.cov["transitions"] += res["transitions"]
+        count_ops(ctx, res["info"])
+        total_programs += res["n"]
+        distinct += res["dn"]
         if comp not in sampled:
             sampled.add(comp)
             ls = lib.read_lines(trace)
             s, e = lib.run_of_line(ls, min(len(ls), 3000))
             ctx.cov["samples"].append({"source": f"MC_Storage {comp}/{family}", "trace": [json.loads(x) for x in ls[s:e]]})
-        judge_trace(ctx, trace, f"MC_Storage comp={comp} family={family} depth={depth} mode={mode} compress={compress}", kd, totals)
+        account(ctx, res["verdict"], trace, res["source"], totals)
         if not did_selftest:
             selftest(ctx, trace, kd)
             did_selftest = True
         os.remove(trace)
-        os.remove(progs)
     # long seeded random histories: heavy-tailed sizes, all payload classes, all components
     trace = ctx.path("trace_random.ndjson")
     dump = ctx.path("prog_random.ndjson")
